@@ -84,6 +84,77 @@ def prehistory(torch):
             attempt(lambda: DWT1DInverse(wave=w, mode=mode)(DWT1DForward(J=1, wave=w, mode=mode)(x1)))
     attempt(lambda: ScatLayer()(x))
     attempt(lambda: ScatLayerj2()(x))
+    option_fuzz(torch)
+
+
+def process_state(torch):
+    """process-wide settings no library call may change (a snapshot that can be compared)"""
+    st = {'default_dtype': str(torch.get_default_dtype()), 'grad_enabled': torch.is_grad_enabled(), 'num_threads': torch.get_num_threads(),
+          'deterministic': torch.are_deterministic_algorithms_enabled(), 'np_err': str(sorted(np.geterr().items())),
+          'mkldnn': bool(torch.backends.mkldnn.enabled), 'inference_mode': torch.is_inference_mode_enabled()}
+    try:
+        st['default_device'] = str(torch.get_default_device())
+    except Exception:
+        pass
+    try:
+        st['autocast_cpu'] = bool(torch.is_autocast_enabled('cpu'))
+    except Exception:
+        pass
+    return st
+
+
+def guard(torch, before, what):
+    """compare with a snapshot; a difference is recorded once (the checks report it) and undone"""
+    after = process_state(torch)
+    if after != before:
+        diff = {k: (before.get(k), after.get(k)) for k in after if after.get(k) != before.get(k)}
+        STATE.setdefault('process_state_changed', []).append({'by': what, 'changed': {k: [str(a), str(b)] for k, (a, b) in diff.items()}})
+        STATS['process_state_changed'] += 1
+        if 'default_dtype' in diff:
+            torch.set_default_dtype(getattr(torch, before['default_dtype'].split('.')[-1]))
+        if 'grad_enabled' in diff:
+            torch.set_grad_enabled(before['grad_enabled'])
+        if 'num_threads' in diff:
+            torch.set_num_threads(before['num_threads'])
+        if 'deterministic' in diff:
+            torch.use_deterministic_algorithms(before['deterministic'])
+
+
+def option_fuzz(torch):
+    """constructor calls with every option of every public class set to values of every kind - alone and together with an
+    argument that makes the constructor fail (unknown names, a band-pass table where none is accepted).  Exceptions are swallowed,
+    as a caller's try / except would; what must hold is that no call, failed or not, changes a process-wide setting."""
+    import importlib, inspect
+    pool = [None, True, False, 0, 1, 3, -1, 2.5, 'zero', 'no_such_value', torch.float64, torch.float16, 'cpu', (), [0]]
+    for modname, name in CLASSES:
+        cls = getattr(importlib.import_module(modname), name)
+        try:
+            params = [q for q in inspect.signature(cls.__init__).parameters.values()
+                      if q.name != 'self' and q.kind in (q.POSITIONAL_OR_KEYWORD, q.KEYWORD_ONLY)]
+        except (TypeError, ValueError):
+            continue
+        names = [q.name for q in params]
+        triggers = [{}]
+        for q in params:
+            if isinstance(q.default, str):
+                triggers.append({q.name: 'no_such_name'})
+                if q.name == 'biort':
+                    triggers.append({q.name: 'near_sym_b_bp'})
+        for q in params:
+            for v in pool:
+                for trig in triggers:
+                    kw = dict(trig)
+                    if q.name in kw:
+                        continue
+                    kw[q.name] = v
+                    before = process_state(torch)
+                    try:
+                        cls(**kw)
+                        STATS['option_fuzz_constructed'] += 1
+                    except Exception:
+                        STATS['option_fuzz_raised'] += 1
+                    guard(torch, before, '%s(%s)' % (name, ', '.join('%s=%r' % (k, kw[k]) for k in kw)))
+        STATS['option_fuzz_options'] += len(names)
 
 
 # ---------------------------------------------------------------------------
@@ -251,12 +322,14 @@ def _bad_variants(args):
 def failed_calls(self, call, args):
     import torch
     for bad in _bad_variants(args):
+        before = process_state(torch)
         try:
             with torch.no_grad():
                 call(self, bad)
             STATS['step_odd_call_returned'] += 1
         except Exception:
             STATS['step_failed_call'] += 1
+        guard(torch, before, 'a refused call of %s' % type(self).__name__)
 
 
 def _all_f64(self, args):
